@@ -4,26 +4,36 @@ package grandpa
 
 // Harness of property C18 (only supermajority-signed GRANDPA commits finalise).
 //
-// One case = one commit message handed to MessageHandler.handleMessage of a Service whose
-// BlockState / GrandpaState / Telemetry are in-memory fakes over a small generated block tree.
-// Signatures are real ed25519 signatures made with cached keys.
+// One case = a short history on ONE Service built by the real NewService over in-memory fakes of
+// BlockState / GrandpaState / Network / Telemetry and a small generated block tree: commit messages
+// handed to MessageHandler.handleMessage, and authority-set changes executed by the real
+// Service.initiateRound (updateAuthorities). Signatures are real ed25519 signatures of cached keys.
+// The fake BlockState remembers what SetFinalisedHash stored: the highest finalised block and the
+// (round, set id) pairs HasFinalisedBlock answers true for.
 //
-// line:  n=<auths> set=<svc set id> tree=<p1,p2,..|-> fin=<blk> has=<0|1> f=<fault> R=<round>
-//        S=<msg set id> T=b<k>:<num> lm=<0|1|2>|<entry>;<entry>;...
+// history line:
+//   hist auths=<keys|-> set=<set id> tree=<p1,p2,..|-> fin=<blk>|<op>;<op>;...
+//   op  commit f=<fault> R=<round> S=<msg set id> T=b<k>:<num> lm=<0|1|2> / <entry> , <entry> ...
+//       setchange <new set id> <keys|->     GetCurrentSetID/GetAuthorities answer this, then initiateRound
+// single-commit line (one `commit` op on a Service with authorities v0..v(n-1); entries shrink one by one):
+//   n=<auths> set=<svc set id> tree=<..> fin=<blk> has=<0|1> f=<fault> R=<round> S=<msg set id>
+//   T=b<k>:<num> lm=<0|1|2>|<entry>;<entry>;...       has=1: (R, set) already has a finalised block
+//
 //   tree   block 0 is the root; block i (i>=1) has parent p_i < i; header number = depth
-//   fin    block returned by GetHighestFinalisedHeader
-//   has    HasFinalisedBlock(round, set) answer
-//   f      0 none, 1 GetHighestFinalisedHeader fails, 2 first IsDescendantOf fails with
+//   fin    highest finalised block at the start
+//   f      0 none, 1 GetHighestFinalisedHeader fails, 2 first IsDescendantOf of the op fails with
 //          ErrStartNodeNotFound, 3 SetFinalisedHash fails, 4 SetPrecommits fails, 5 HasFinalisedBlock fails
 //   lm     0 len(Precommits)==len(AuthData), 1 one extra precommit, 2 one extra AuthData
 //   entry  <id> b<k>:<num> <sig>
-//   id     v<i> = cached key i (an authority iff i < n), x<j> = cached key 100+j (never an authority)
+//   keys   comma separated ids, no repetition; id v<i> = cached key i, x<j> = cached key 100+j
 //   b<k>   block k of the tree; k >= size is a block nobody knows
-//   sig    ok | bad<t> (honest signature with one bit flipped, variant t) | z (all zero) |
-//          r<q> (signed for round q) | s<q> (signed for set q) | pv (signed as prevote) |
-//          kv<i> / kx<j> (signed by that other key) | ob<k>:<num> (signed over that other vote)
+//   sig    ok (the id's honest precommit signature for this vote, the commit's round R and set id S) |
+//          bad<t> (ok with one bit flipped, variant t) | z (all zero) | r<q> (signed for round q) |
+//          s<q> (signed for set q) | pv (signed as prevote) | kv<i> / kx<j> (signed by that other key) |
+//          ob<k>:<num> (signed over that other vote)
 //        thr <n>   (State.threshold() of a set of n voters)
-// output: <class> [need got] fin=<-|b<k>:<round>:<set>> pc=<-|round:set:len> trk=<0|1>
+// output per commit: <class> [need got] fin=<-|b<k>:<round>:<set>> pc=<-|round:set:len> trk=<0|1>
+// output per setchange: set:<set id>:<keys>      (the Service's state afterwards); ops joined by ";"
 
 import (
 	"encoding/json"
@@ -35,6 +45,7 @@ import (
 	"sync"
 	"testing"
 
+	"github.com/ChainSafe/gossamer/dot/network"
 	"github.com/ChainSafe/gossamer/dot/types"
 	"github.com/ChainSafe/gossamer/internal/database"
 	"github.com/ChainSafe/gossamer/internal/log"
@@ -42,6 +53,7 @@ import (
 	"github.com/ChainSafe/gossamer/lib/common"
 	"github.com/ChainSafe/gossamer/lib/crypto/ed25519"
 	"github.com/ChainSafe/gossamer/pkg/scale"
+	"github.com/libp2p/go-libp2p/core/protocol"
 )
 
 // ---------------------------------------------------------------- fakes
@@ -55,19 +67,28 @@ var (
 
 type c18BlockState struct {
 	BlockState // every method that is not overridden panics (nil interface)
-	headers    map[common.Hash]*types.Header
-	parent     map[common.Hash]common.Hash
+	tree       *c18Tree
 	index      map[common.Hash]int
-	fin        *types.Header
-	has        bool
-	fault      int
+	fin        int               // highest finalised block
+	done       map[[2]uint64]bool // (round, set id) with a finalised block
+	fault      int               // of the running op
 	descCalls  int
 	finCalls   []string
+	curSet     uint64 // set id of the last setchange op (for GetHighestRoundAndSetID)
+}
+
+func (b *c18BlockState) GenesisHash() common.Hash { return b.tree.headers[0].Hash() }
+
+func (b *c18BlockState) GetFinalisedNotifierChannel() chan *types.FinalisationInfo {
+	return make(chan *types.FinalisationInfo)
+}
+func (b *c18BlockState) GetImportedBlockNotifierChannel() chan *types.Block {
+	return make(chan *types.Block)
 }
 
 func (b *c18BlockState) GetHeader(h common.Hash) (*types.Header, error) {
-	if hd, ok := b.headers[h]; ok {
-		return hd, nil
+	if i, ok := b.index[h]; ok {
+		return b.tree.headers[i], nil
 	}
 	return nil, fmt.Errorf("c18 header: %w", database.ErrNotFound)
 }
@@ -76,14 +97,22 @@ func (b *c18BlockState) HasFinalisedBlock(round, setID uint64) (bool, error) {
 	if b.fault == 5 {
 		return false, c18ErrHas
 	}
-	return b.has, nil
+	return b.done[[2]uint64{round, setID}], nil
 }
 
 func (b *c18BlockState) GetHighestFinalisedHeader() (*types.Header, error) {
 	if b.fault == 1 {
 		return nil, c18ErrFinHdr
 	}
-	return b.fin, nil
+	return b.tree.headers[b.fin], nil
+}
+
+// initiateRound: nothing was finalised in a later round or set than the Service knows of
+func (b *c18BlockState) GetHighestRoundAndSetID() (uint64, uint64, error) { return 0, b.curSet, nil }
+
+// used by NewService and initiateRound only
+func (b *c18BlockState) GetFinalisedHeader(round, setID uint64) (*types.Header, error) {
+	return b.tree.headers[b.fin], nil
 }
 
 // IsDescendantOf follows lib/blocktree: equal hashes are related even when unknown, an unknown
@@ -96,33 +125,37 @@ func (b *c18BlockState) IsDescendantOf(parent, child common.Hash) (bool, error) 
 	if parent == child {
 		return true, nil
 	}
-	if _, ok := b.headers[parent]; !ok {
+	pi, ok := b.index[parent]
+	if !ok {
 		return false, fmt.Errorf("%w: node hash %s", blocktree.ErrStartNodeNotFound, parent)
 	}
-	if _, ok := b.headers[child]; !ok {
+	ci, ok := b.index[child]
+	if !ok {
 		return false, fmt.Errorf("%w: node hash %s", blocktree.ErrEndNodeNotFound, child)
 	}
-	for cur := child; ; {
-		p, ok := b.parent[cur]
-		if !ok {
-			return false, nil
-		}
-		if p == parent {
+	for cur := ci; cur > 0; {
+		cur = b.tree.parents[cur-1]
+		if cur == pi {
 			return true, nil
 		}
-		cur = p
 	}
+	return false, nil
 }
 
 func (b *c18BlockState) SetFinalisedHash(h common.Hash, round, setID uint64) error {
 	name := "?"
-	if i, ok := b.index[h]; ok {
+	i, known := b.index[h]
+	if known {
 		name = "b" + strconv.Itoa(i)
 	}
 	b.finCalls = append(b.finCalls, fmt.Sprintf("%s:%d:%d", name, round, setID))
 	if b.fault == 3 {
 		return c18ErrSetFin
 	}
+	if known {
+		b.fin = i
+	}
+	b.done[[2]uint64{round, setID}] = true
 	return nil
 }
 
@@ -130,6 +163,8 @@ type c18GrandpaState struct {
 	GrandpaState
 	fault   int
 	pcCalls []string
+	cur     uint64 // GetCurrentSetID
+	auths   []int  // GetAuthorities(cur)
 }
 
 func (g *c18GrandpaState) SetPrecommits(round, setID uint64, data []SignedVote) error {
@@ -140,9 +175,35 @@ func (g *c18GrandpaState) SetPrecommits(round, setID uint64, data []SignedVote) 
 	return nil
 }
 
+func (g *c18GrandpaState) GetCurrentSetID() (uint64, error) { return g.cur, nil }
+func (g *c18GrandpaState) GetLatestRound() (uint64, error)  { return 1, nil }
+func (g *c18GrandpaState) SetLatestRound(uint64) error      { return nil }
+func (g *c18GrandpaState) GetAuthorities(setID uint64) ([]types.GrandpaVoter, error) {
+	if setID != g.cur {
+		return nil, errors.New("c18: unknown set id")
+	}
+	return c18Voters(g.auths), nil
+}
+
+func c18Voters(keys []int) []types.GrandpaVoter {
+	vs := make([]types.GrandpaVoter, len(keys))
+	for i, k := range keys {
+		vs[i] = Voter{Key: *c18Key(k).Public().(*ed25519.PublicKey), ID: uint64(i)}
+	}
+	return vs
+}
+
 type c18Telemetry struct{}
 
 func (c18Telemetry) SendMessage(json.Marshaler) {}
+
+type c18Network struct{ Network }
+
+func (c18Network) RegisterNotificationsProtocol(protocol.ID, network.MessageType, network.HandshakeGetter,
+	network.HandshakeDecoder, network.HandshakeValidator, network.MessageDecoder,
+	network.NotificationsMessageHandler, network.NotificationsMessageBatchHandler, uint64) error {
+	return nil
+}
 
 // ---------------------------------------------------------------- cached keys and trees
 
@@ -166,6 +227,25 @@ func c18Key(i int) *ed25519.Keypair {
 	}
 	c18Keys[i] = k
 	return k
+}
+
+var (
+	c18NamesOnce sync.Once
+	c18Names     map[ed25519.PublicKeyBytes]int
+)
+
+// c18KeyOf maps a public key back to its cached key number (199 = not one of ours).
+func c18KeyOf(pk ed25519.PublicKeyBytes) int {
+	c18NamesOnce.Do(func() {
+		c18Names = map[ed25519.PublicKeyBytes]int{}
+		for k := 0; k < 199; k++ {
+			c18Names[c18Key(k).Public().(*ed25519.PublicKey).AsBytes()] = k
+		}
+	})
+	if k, ok := c18Names[pk]; ok {
+		return k
+	}
+	return 199
 }
 
 type c18Tree struct {
@@ -220,10 +300,21 @@ func (t *c18Tree) hash(k int) common.Hash {
 
 // ---------------------------------------------------------------- parsing
 
-type c18Case struct {
-	n, set, fin, has, fault, round, mset, tblk, tnum, lm int
-	tree                                                  *c18Tree
-	entries                                               []c18Entry
+type c18Hist struct {
+	auths    []int
+	set, fin int
+	seedDone bool // single-commit line with has=1
+	single   bool
+	tree     *c18Tree
+	ops      []c18Op
+}
+
+type c18Op struct {
+	setchange                         bool
+	newSet                            int
+	voters                            []int
+	fault, round, mset, tblk, tnum, lm int
+	entries                           []c18Entry
 }
 
 type c18Entry struct {
@@ -269,81 +360,206 @@ func c18ParseVote(s string) (blk, num int, ok bool) {
 	return blk, num, ok1 && ok2 && blk < 1000 && num < 1000000
 }
 
-func c18Parse(line string) (*c18Case, bool) {
-	bar := strings.IndexByte(line, '|')
-	if bar < 0 {
-		return nil, false
+// c18ParseKeys parses `-` or a comma separated list of distinct key names.
+func c18ParseKeys(s string) ([]int, bool) {
+	if s == "-" {
+		return []int{}, true
 	}
-	c := &c18Case{}
-	seen := map[string]bool{}
-	for _, tok := range strings.Fields(line[:bar]) {
+	var out []int
+	seen := map[int]bool{}
+	for _, t := range strings.Split(s, ",") {
+		k, ok := c18ParseKey(t)
+		if !ok || seen[k] {
+			return nil, false
+		}
+		seen[k] = true
+		out = append(out, k)
+	}
+	return out, len(out) <= 16
+}
+
+func c18KeyName(k int) string {
+	if k >= 100 {
+		return "x" + strconv.Itoa(k-100)
+	}
+	return "v" + strconv.Itoa(k)
+}
+
+func c18KeyNames(ks []int) string {
+	if len(ks) == 0 {
+		return "-"
+	}
+	n := make([]string, len(ks))
+	for i, k := range ks {
+		n[i] = c18KeyName(k)
+	}
+	return strings.Join(n, ",")
+}
+
+// c18KV splits `key=value` tokens; every key of `want` must occur exactly once and no other.
+func c18KV(toks []string, want string) (map[string]string, bool) {
+	m := map[string]string{}
+	for _, tok := range toks {
 		eq := strings.IndexByte(tok, '=')
 		if eq < 0 {
 			return nil, false
 		}
-		k, v := tok[:eq], tok[eq+1:]
-		if seen[k] {
+		k := tok[:eq]
+		if _, dup := m[k]; dup || !strings.Contains(" "+want+" ", " "+k+" ") {
 			return nil, false
 		}
-		seen[k] = true
-		var ok bool
-		switch k {
-		case "n":
-			c.n, ok = c18Num(v)
-			ok = ok && c.n <= 16
-		case "set":
-			c.set, ok = c18Num(v)
-		case "tree":
-			c.tree = c18BuildTree(v)
-			ok = c.tree != nil
-		case "fin":
-			c.fin, ok = c18Num(v)
-		case "has":
-			c.has, ok = c18Num(v)
-			ok = ok && c.has <= 1
-		case "f":
-			c.fault, ok = c18Num(v)
-			ok = ok && c.fault <= 5
-		case "R":
-			c.round, ok = c18Num(v)
-		case "S":
-			c.mset, ok = c18Num(v)
-		case "T":
-			c.tblk, c.tnum, ok = c18ParseVote(v)
-		case "lm":
-			c.lm, ok = c18Num(v)
-			ok = ok && c.lm <= 2
-		}
-		if !ok {
-			return nil, false
-		}
+		m[k] = tok[eq+1:]
 	}
-	if len(seen) != 10 || c.fin >= len(c.tree.headers) {
+	return m, len(m) == len(strings.Fields(want))
+}
+
+func c18ParseEntries(body, sep string) ([]c18Entry, bool) {
+	var out []c18Entry
+	if strings.TrimSpace(body) == "" {
+		return out, true
+	}
+	for _, e := range strings.Split(body, sep) {
+		f := strings.Fields(e)
+		if len(f) != 3 {
+			return nil, false
+		}
+		var en c18Entry
+		var ok bool
+		if en.key, ok = c18ParseKey(f[0]); !ok {
+			return nil, false
+		}
+		if en.blk, en.num, ok = c18ParseVote(f[1]); !ok {
+			return nil, false
+		}
+		en.sig = f[2]
+		if !c18SigOK(en.sig) {
+			return nil, false
+		}
+		out = append(out, en)
+	}
+	return out, true
+}
+
+// c18CommitFields reads f R S T lm out of a key=value map.
+func c18CommitFields(m map[string]string, op *c18Op) bool {
+	var ok bool
+	if op.fault, ok = c18Num(m["f"]); !ok || op.fault > 5 {
+		return false
+	}
+	if op.round, ok = c18Num(m["R"]); !ok {
+		return false
+	}
+	if op.mset, ok = c18Num(m["S"]); !ok {
+		return false
+	}
+	if op.tblk, op.tnum, ok = c18ParseVote(m["T"]); !ok {
+		return false
+	}
+	if op.lm, ok = c18Num(m["lm"]); !ok || op.lm > 2 {
+		return false
+	}
+	return true
+}
+
+func c18Parse(line string) (*c18Hist, bool) {
+	bar := strings.IndexByte(line, '|')
+	if bar < 0 {
 		return nil, false
 	}
+	toks := strings.Fields(line[:bar])
 	body := line[bar+1:]
-	if strings.TrimSpace(body) != "" {
-		for _, e := range strings.Split(body, ";") {
-			f := strings.Fields(e)
-			if len(f) != 3 {
-				return nil, false
-			}
-			var en c18Entry
-			var ok bool
-			if en.key, ok = c18ParseKey(f[0]); !ok {
-				return nil, false
-			}
-			if en.blk, en.num, ok = c18ParseVote(f[1]); !ok {
-				return nil, false
-			}
-			en.sig = f[2]
-			if !c18SigOK(en.sig) {
-				return nil, false
-			}
-			c.entries = append(c.entries, en)
+	h := &c18Hist{}
+	var ok bool
+	if len(toks) > 0 && toks[0] == "hist" {
+		m, good := c18KV(toks[1:], "auths set tree fin")
+		if !good {
+			return nil, false
 		}
+		if h.auths, ok = c18ParseKeys(m["auths"]); !ok {
+			return nil, false
+		}
+		if h.set, ok = c18Num(m["set"]); !ok {
+			return nil, false
+		}
+		if h.tree = c18BuildTree(m["tree"]); h.tree == nil {
+			return nil, false
+		}
+		if h.fin, ok = c18Num(m["fin"]); !ok || h.fin >= len(h.tree.headers) {
+			return nil, false
+		}
+		if strings.TrimSpace(body) == "" {
+			return h, true
+		}
+		for _, o := range strings.Split(body, ";") {
+			f := strings.Fields(o)
+			if len(f) == 0 {
+				return nil, false
+			}
+			var op c18Op
+			switch f[0] {
+			case "setchange":
+				if len(f) != 3 {
+					return nil, false
+				}
+				op.setchange = true
+				if op.newSet, ok = c18Num(f[1]); !ok {
+					return nil, false
+				}
+				if op.voters, ok = c18ParseKeys(f[2]); !ok {
+					return nil, false
+				}
+			case "commit":
+				slash := strings.IndexByte(o, '/')
+				if slash < 0 {
+					return nil, false
+				}
+				cm, good := c18KV(strings.Fields(o[:slash])[1:], "f R S T lm")
+				if !good || !c18CommitFields(cm, &op) {
+					return nil, false
+				}
+				if op.entries, ok = c18ParseEntries(o[slash+1:], ","); !ok {
+					return nil, false
+				}
+			default:
+				return nil, false
+			}
+			h.ops = append(h.ops, op)
+		}
+		return h, true
 	}
-	return c, true
+	m, good := c18KV(toks, "n set tree fin has f R S T lm")
+	if !good {
+		return nil, false
+	}
+	n, ok := c18Num(m["n"])
+	if !ok || n > 16 {
+		return nil, false
+	}
+	for i := 0; i < n; i++ {
+		h.auths = append(h.auths, i)
+	}
+	if h.set, ok = c18Num(m["set"]); !ok {
+		return nil, false
+	}
+	if h.tree = c18BuildTree(m["tree"]); h.tree == nil {
+		return nil, false
+	}
+	if h.fin, ok = c18Num(m["fin"]); !ok || h.fin >= len(h.tree.headers) {
+		return nil, false
+	}
+	has, ok := c18Num(m["has"])
+	if !ok || has > 1 {
+		return nil, false
+	}
+	var op c18Op
+	if !c18CommitFields(m, &op) {
+		return nil, false
+	}
+	if op.entries, ok = c18ParseEntries(body, ";"); !ok {
+		return nil, false
+	}
+	h.single, h.seedDone, h.ops = true, has == 1, []c18Op{op}
+	return h, true
 }
 
 func c18SigOK(s string) bool {
@@ -367,8 +583,8 @@ func c18SigOK(s string) bool {
 }
 
 // c18Sign makes the signature bytes an entry's descriptor stands for.
-func c18Sign(c *c18Case, e c18Entry) [64]byte {
-	key, stage, blk, num, round, set := e.key, precommit, e.blk, e.num, c.round, c.set
+func c18Sign(t *c18Tree, c *c18Op, e c18Entry) [64]byte {
+	key, stage, blk, num, round, set := e.key, precommit, e.blk, e.num, c.round, c.mset
 	tamper := -1
 	s := e.sig
 	switch {
@@ -390,7 +606,7 @@ func c18Sign(c *c18Case, e c18Entry) [64]byte {
 	}
 	msg, err := scale.Marshal(FullVote{
 		Stage: stage,
-		Vote:  Vote{Hash: c.tree.hash(blk), Number: uint32(num)},
+		Vote:  Vote{Hash: t.hash(blk), Number: uint32(num)},
 		Round: uint64(round),
 		SetID: uint64(set),
 	})
@@ -456,76 +672,95 @@ func c18Run(line string) string {
 		}
 		return strconv.FormatUint((&State{voters: make([]Voter, n)}).threshold(), 10)
 	}
-	c, ok := c18Parse(line)
+	h, ok := c18Parse(line)
 	if !ok {
 		return "bad-op"
 	}
-	voters := make([]Voter, c.n)
-	for i := range voters {
-		voters[i] = Voter{Key: *c18Key(i).Public().(*ed25519.PublicKey), ID: uint64(i)}
+	t := h.tree
+	bs := &c18BlockState{tree: t, index: map[common.Hash]int{}, fin: h.fin, done: map[[2]uint64]bool{}}
+	for i, hd := range t.headers {
+		bs.index[hd.Hash()] = i
 	}
-	bs := &c18BlockState{
-		headers: map[common.Hash]*types.Header{},
-		parent:  map[common.Hash]common.Hash{},
-		index:   map[common.Hash]int{},
-		fin:     c.tree.headers[c.fin],
-		has:     c.has == 1,
-		fault:   c.fault,
+	if h.seedDone {
+		bs.done[[2]uint64{uint64(h.ops[0].round), uint64(h.set)}] = true
 	}
-	for i, h := range c.tree.headers {
-		bs.headers[h.Hash()] = h
-		bs.index[h.Hash()] = i
-		if i > 0 {
-			bs.parent[h.Hash()] = c.tree.headers[c.tree.parents[i-1]].Hash()
+	gst := &c18GrandpaState{cur: uint64(h.set), auths: h.auths}
+	svc, err := NewService(&Config{
+		LogLvl:       log.Critical,
+		BlockState:   bs,
+		GrandpaState: gst,
+		Network:      c18Network{},
+		Voters:       c18Voters(h.auths),
+		Keypair:      c18Key(0),
+		Telemetry:    c18Telemetry{},
+	})
+	if err != nil {
+		return "err-newservice"
+	}
+	defer svc.cancel()
+
+	var res []string
+	for i := range h.ops {
+		op := &h.ops[i]
+		if op.setchange {
+			gst.cur, gst.auths, bs.curSet = uint64(op.newSet), op.voters, uint64(op.newSet)
+			bs.fault, gst.fault = 0, 0
+			if err := svc.initiateRound(); err != nil {
+				res = append(res, "set-err")
+				continue
+			}
+			ks := make([]int, len(svc.state.voters))
+			for j, v := range svc.state.voters {
+				ks[j] = c18KeyOf(v.Key.AsBytes())
+			}
+			vs := c18KeyNames(ks)
+			res = append(res, fmt.Sprintf("set:%d:%s", svc.state.setID, vs))
+			continue
 		}
+		bs.fault, gst.fault, bs.descCalls = op.fault, op.fault, 0
+		bs.finCalls, gst.pcCalls = nil, nil
+		msg := &CommitMessage{
+			Round:      uint64(op.round),
+			SetID:      uint64(op.mset),
+			Vote:       Vote{Hash: t.hash(op.tblk), Number: uint32(op.tnum)},
+			Precommits: []Vote{},
+			AuthData:   []AuthData{},
+		}
+		for _, e := range op.entries {
+			msg.Precommits = append(msg.Precommits, Vote{Hash: t.hash(e.blk), Number: uint32(e.num)})
+			msg.AuthData = append(msg.AuthData, AuthData{
+				Signature:   c18Sign(t, op, e),
+				AuthorityID: c18Key(e.key).Public().(*ed25519.PublicKey).AsBytes(),
+			})
+		}
+		switch op.lm {
+		case 1:
+			msg.Precommits = append(msg.Precommits, msg.Vote)
+		case 2:
+			msg.AuthData = append(msg.AuthData, AuthData{AuthorityID: c18Key(0).Public().(*ed25519.PublicKey).AsBytes()})
+		}
+		out, err := svc.messageHandler.handleMessage("", msg)
+		r := c18Class(err)
+		if out != nil {
+			r += "+out"
+		}
+		fin, pc := "-", "-"
+		if len(bs.finCalls) > 0 {
+			fin = strings.Join(bs.finCalls, ",")
+		}
+		if len(gst.pcCalls) > 0 {
+			pc = strings.Join(gst.pcCalls, ",")
+		}
+		trk := 0
+		if svc.tracker.commits.message(msg.Vote.Hash) == msg {
+			trk = 1
+		}
+		res = append(res, fmt.Sprintf("%s fin=%s pc=%s trk=%d", r, fin, pc, trk))
 	}
-	gst := &c18GrandpaState{fault: c.fault}
-	svc := &Service{
-		blockState:   bs,
-		grandpaState: gst,
-		state:        NewState(voters, uint64(c.set), 1),
-		tracker:      &tracker{commits: newCommitsTracker(8)},
-		telemetry:    c18Telemetry{},
+	if len(res) == 0 {
+		return "empty"
 	}
-	mh := NewMessageHandler(svc, bs, c18Telemetry{})
-	svc.messageHandler = mh
-
-	msg := &CommitMessage{
-		Round:      uint64(c.round),
-		SetID:      uint64(c.mset),
-		Vote:       Vote{Hash: c.tree.hash(c.tblk), Number: uint32(c.tnum)},
-		Precommits: []Vote{},
-		AuthData:   []AuthData{},
-	}
-	for _, e := range c.entries {
-		msg.Precommits = append(msg.Precommits, Vote{Hash: c.tree.hash(e.blk), Number: uint32(e.num)})
-		msg.AuthData = append(msg.AuthData, AuthData{
-			Signature:   c18Sign(c, e),
-			AuthorityID: c18Key(e.key).Public().(*ed25519.PublicKey).AsBytes(),
-		})
-	}
-	switch c.lm {
-	case 1:
-		msg.Precommits = append(msg.Precommits, msg.Vote)
-	case 2:
-		msg.AuthData = append(msg.AuthData, AuthData{AuthorityID: c18Key(0).Public().(*ed25519.PublicKey).AsBytes()})
-	}
-
-	out, err := mh.handleMessage("", msg)
-	res := c18Class(err)
-	if out != nil {
-		res += "+out"
-	}
-	fin, pc := "-", "-"
-	if len(bs.finCalls) > 0 {
-		fin = strings.Join(bs.finCalls, ",")
-	}
-	if len(gst.pcCalls) > 0 {
-		pc = strings.Join(gst.pcCalls, ",")
-	}
-	trk := 0
-	svc.tracker.commits.forEach(func(*CommitMessage) { trk++ })
-	return fmt.Sprintf("%s fin=%s pc=%s trk=%d", res, fin, pc, trk)
+	return strings.Join(res, ";")
 }
 
 // ---------------------------------------------------------------- generator
@@ -589,12 +824,177 @@ func c18GenDense(r *vhRng) string {
 	return fmt.Sprintf("n=%d set=0 tree=0,1,0 fin=0 has=0 f=0 R=1 S=0 T=b1:1 lm=0|%s", n, strings.Join(es, ";"))
 }
 
+// c18GenHist: commits on one Service around authority-set changes. Members leave, stay and join;
+// commits for the old and the new set id are signed by removed / surviving / new authorities in numbers
+// around the threshold of the set the Service is in.
+func c18GenHist(r *vhRng) string {
+	treeStr, parents := c18GenTree(r)
+	size := len(parents) + 1
+	pool := []int{0, 1, 2, 3, 4, 5, 6, 7, 8, 9, 100, 101}
+	subset := func(from []int, k int) []int {
+		p := append([]int{}, from...)
+		for i := len(p) - 1; i > 0; i-- {
+			j := r.Intn(i + 1)
+			p[i], p[j] = p[j], p[i]
+		}
+		if k > len(p) {
+			k = len(p)
+		}
+		return p[:k]
+	}
+	minus := func(a, b []int) []int {
+		in := map[int]bool{}
+		for _, x := range b {
+			in[x] = true
+		}
+		var out []int
+		for _, x := range a {
+			if !in[x] {
+				out = append(out, x)
+			}
+		}
+		return out
+	}
+	cur := subset(pool[:8], 1+r.Intn(6))
+	prev := []int{}
+	curSet := r.Intn(2)
+	prevSet := curSet
+	initAuths, initSet := c18KeyNames(cur), curSet
+	last := 0 // last target, later targets mostly descend from it
+	round := 0
+	var ops []string
+
+	commit := func() {
+		round++
+		rd := round
+		if r.Chance(1, 10) && round > 1 {
+			rd = 1 + r.Intn(round)
+		}
+		var desc []int
+		for b := 0; b < size; b++ {
+			if c18IsAnc(parents, last, b) {
+				desc = append(desc, b)
+			}
+		}
+		tblk := desc[r.Intn(len(desc))]
+		if r.Chance(1, 8) {
+			tblk = r.Intn(size)
+		}
+		var sub []int
+		for b := 0; b < size; b++ {
+			if c18IsAnc(parents, tblk, b) {
+				sub = append(sub, b)
+			}
+		}
+		vote := func() string {
+			b := sub[r.Intn(len(sub))]
+			if r.Chance(1, 10) {
+				b = r.Intn(size)
+			}
+			return fmt.Sprintf("b%d:%d", b, c18Depth(parents, b))
+		}
+		mset := curSet
+		if r.Chance(1, 6) {
+			mset = prevSet
+		}
+		thr := 2 * len(cur) / 3
+		want := thr + r.Pick(-1, 0, 0, 0, 1, 1, 2)
+		if want < 0 {
+			want = 0
+		}
+		removed, joined, stayed := minus(prev, cur), minus(cur, prev), minus(cur, minus(cur, prev))
+		var order []int
+		switch r.Intn(5) {
+		case 0: // current authorities only
+			order = subset(cur, len(cur))
+		case 1: // those who left the set first
+			order = append(subset(removed, len(removed)), subset(cur, len(cur))...)
+		case 2: // newcomers first, then survivors
+			order = append(subset(joined, len(joined)), subset(stayed, len(stayed))...)
+		case 3: // survivors first, then those who left
+			order = append(subset(stayed, len(stayed)), subset(removed, len(removed))...)
+		default: // anybody
+			order = subset(pool, len(pool))
+		}
+		if want > len(order) {
+			want = len(order)
+		}
+		var es []string
+		for _, k := range order[:want] {
+			sig := "ok"
+			if r.Chance(1, 12) {
+				sig = fmt.Sprintf("s%d", prevSet)
+			} else if r.Chance(1, 25) {
+				sig = fmt.Sprintf("bad%d", r.Intn(3))
+			}
+			es = append(es, c18KeyName(k)+" "+vote()+" "+sig)
+		}
+		if r.Chance(1, 5) && len(es) > 0 { // repetition
+			es = append(es, es[r.Intn(len(es))])
+		}
+		if r.Chance(1, 6) && len(order) > 0 { // equivocation of somebody
+			k := order[r.Intn(len(order))]
+			es = append(es, c18KeyName(k)+" "+vote()+" ok", c18KeyName(k)+" "+fmt.Sprintf("b%d:%d", 0, 0)+" ok")
+		}
+		for i := len(es) - 1; i > 0; i-- {
+			j := r.Intn(i + 1)
+			es[i], es[j] = es[j], es[i]
+		}
+		fault := 0
+		if r.Chance(1, 25) {
+			fault = 1 + r.Intn(5)
+		}
+		ops = append(ops, fmt.Sprintf("commit f=%d R=%d S=%d T=b%d:%d lm=0 / %s", fault, rd, mset, tblk,
+			c18Depth(parents, tblk), strings.Join(es, " , ")))
+		if want >= thr && mset == curSet {
+			last = tblk // probably finalised
+		}
+	}
+	change := func() {
+		keep := subset(cur, r.Intn(len(cur)+1))
+		add := subset(minus(pool, cur), r.Intn(4))
+		next := append(keep, add...)
+		if r.Chance(1, 12) {
+			next = []int{}
+		}
+		next = subset(next, len(next))
+		ns := curSet + 1
+		if r.Chance(1, 10) {
+			ns = curSet // the Service ignores the voters of an unchanged set id
+		} else if r.Chance(1, 10) {
+			ns = curSet + 2
+		}
+		ops = append(ops, fmt.Sprintf("setchange %d %s", ns, c18KeyNames(next)))
+		if ns != curSet {
+			prev, prevSet = cur, curSet
+			cur, curSet = next, ns
+		}
+	}
+	for i := r.Intn(3); i > 0; i-- {
+		commit()
+	}
+	change()
+	for i := 1 + r.Intn(3); i > 0; i-- {
+		commit()
+	}
+	if r.Chance(1, 3) {
+		change()
+		for i := 1 + r.Intn(2); i > 0; i-- {
+			commit()
+		}
+	}
+	return fmt.Sprintf("hist auths=%s set=%d tree=%s fin=0|%s", initAuths, initSet, treeStr, strings.Join(ops, ";"))
+}
+
 func c18Gen(r *vhRng) string {
 	if r.Chance(1, 100) {
 		return fmt.Sprintf("thr %d", r.Intn(200))
 	}
 	if r.Chance(1, 4) {
 		return c18GenDense(r)
+	}
+	if r.Chance(2, 5) {
+		return c18GenHist(r)
 	}
 	n := r.Pick(1, 2, 3, 3, 4, 4, 4, 5, 6, 6, 7, 8, 9, 9, 10)
 	if r.Chance(1, 60) {
